@@ -27,6 +27,10 @@ ALPHABET = (
     # a system flagged read-only is a registered system like any other (the flag is advisory: nothing enforces it)
     + [("add", "a", "m4", "readonly"), ("add", "b", "m1", "readonly"), ("readonly", "a", True), ("readonly", "a", False)]
     + [("setdefault", "a", "temperature", "degF")]
+    # a handle the client kept to a system that is no longer registered: whatever is done to it is no business of the manager
+    + [("ghost-setdefault", "a", "length", "km"), ("ghost-removecat", "a", "length")]
+    # the unit database the conversions use is the singleton of the moment
+    + [("pushdb",), ("popdb",)]
     # amounts that are exactly zero (an affine unit makes zero an amount like any other), and a unit of another type
     + [("convert", "temperature", "degC", 0.0), ("convert", "length", "m", 0.0), ("convert", "length", "kg", 0.0), ("convert", "length", "kg", 2.0)]
     + [("remove", i) for i in ("a", "b", "z")]
@@ -38,6 +42,31 @@ ALPHABET = (
 )
 TEMPLATES = {"t1": {"length": "m"}, "t2": {"length": "m", "time": "s"}, "t3": {"mass": "kg"}}
 CATS = ("length", "time", "mass", "depth", "temperature")
+
+
+_ALT = []
+
+
+def alt_database():
+    """another table for the same symbols (other factors, another zero for degC)"""
+    from barril.units import UnitDatabase
+
+    if not _ALT:
+        d = UnitDatabase()
+        d.AddUnitBase("length", "metre", "m")
+        d.AddUnit("length", "alt centimetre", "cm", "%f*50.0", "%f/50.0")
+        d.AddUnit("length", "alt kilometre", "km", "%f/999.0", "%f*999.0")
+        d.AddUnitBase("time", "second", "s")
+        d.AddUnit("time", "alt minute", "min", "%f/30.0", "%f*30.0")
+        d.AddUnitBase("mass", "kilogram", "kg")
+        d.AddUnit("mass", "alt gram", "g", "%f*900.0", "%f/900.0")
+        d.AddUnitBase("temperature", "kelvin", "K")
+        d.AddUnit("temperature", "alt celsius", "degC", "%f-100.0", "%f+100.0")
+        d.AddUnit("temperature", "alt fahrenheit", "degF", "%f*2.0-50.0", "(%f+50.0)/2.0")
+        for c, q in (("length", "length"), ("depth", "length"), ("time", "time"), ("mass", "mass"), ("temperature", "temperature")):
+            d.AddCategory(c, q)
+        _ALT.append(d)
+    return _ALT[0]
 
 
 class Run:
@@ -53,6 +82,14 @@ class Run:
         self.m.on_unit_changed.Register(self._on_unit)
         self.shared = {"length": "m", "time": "s"}  # one dict handed to several AddUnitSystem calls
         self.objects = {}  # id -> unit system object as returned by AddUnitSystem (kept like a client would)
+        self.pushed = 0
+
+    def close(self):
+        from barril.units import UnitDatabase
+
+        while self.pushed:
+            UnitDatabase.PopSingleton()
+            self.pushed -= 1
 
     def _on_current(self, s):
         self.log.append(("cur", s.GetId()))
@@ -75,6 +112,12 @@ class Run:
             return act[1] is None or act[1] in self.M.systems
         if k in ("setdefault", "removecat", "readonly"):
             return act[1] in self.M.systems
+        if k in ("ghost-setdefault", "ghost-removecat"):
+            return act[1] in self.objects and (act[1] not in self.M.systems or self.m.GetUnitSystems().get(act[1]) is not self.objects[act[1]])
+        if k == "pushdb":
+            return self.pushed == 0
+        if k == "popdb":
+            return self.pushed > 0
         return True
 
     def step(self, act, db):
@@ -109,6 +152,24 @@ class Run:
             elif k == "removecat":
                 exp = M.remove_category(act[1], act[2])
                 m.GetUnitSystems()[act[1]].RemoveCategory(act[2])
+            elif k == "ghost-setdefault":
+                exp = "ok"
+                self.objects[act[1]].SetDefaultUnit(act[2], act[3])
+            elif k == "ghost-removecat":
+                exp = "ok"
+                self.objects[act[1]].RemoveCategory(act[2])
+            elif k == "pushdb":
+                from barril.units import UnitDatabase
+
+                exp = "ok"
+                UnitDatabase.PushSingleton(alt_database())
+                self.pushed += 1
+            elif k == "popdb":
+                from barril.units import UnitDatabase
+
+                exp = "ok"
+                UnitDatabase.PopSingleton()
+                self.pushed -= 1
             elif k == "readonly":
                 exp = "ok"
                 m.GetUnitSystems()[act[1]].SetReadOnly(act[2])
@@ -117,6 +178,9 @@ class Run:
             elif k == "convert":
                 from barril.units import ObtainQuantity, Scalar
 
+                from barril.units import UnitDatabase
+
+                db = UnitDatabase.GetSingleton()  # the database of the moment (another one may have been pushed)
                 exp = "ok"
                 cat, u, v = act[1], act[2], act[3]
                 tu = M.default_unit(cat)
@@ -138,8 +202,20 @@ class Run:
                     return exp, "ok", None, problems  # (no current default: the amount comes back as given; there is no Scalar of that unit to try)
                 sc = Scalar(cat if cat != "length" else "depth", v, u)
                 tu2 = M.default_unit(sc.GetCategory())
-                r2 = m.ConvertScalarToCurrent(sc)
-                want2 = (v, u) if tu2 is None else (db.Convert(sc.GetCategory(), u, tu2, v), tu2)
+                try:
+                    want2 = (v, u) if tu2 is None else (db.Convert(sc.GetCategory(), u, tu2, v), tu2)
+                except Exception:
+                    want2 = None  # the database of the moment does not know the current default unit: the conversion is refused
+                try:
+                    r2 = m.ConvertScalarToCurrent(sc)
+                except Exception as e2:
+                    r2 = e2
+                if want2 is None:
+                    if not isinstance(r2, Exception):
+                        problems.append(("ConvertScalarToCurrent-accepted-a-unit-the-database-rejects", {"returned": repr(r2)}))
+                    return exp, "ok", None, problems
+                if isinstance(r2, Exception):
+                    raise r2
                 if (r2.GetValue(), r2.GetUnit()) != want2 or r2.GetCategory() != sc.GetCategory():
                     problems.append(("ConvertScalarToCurrent-differs", {"returned": repr(r2), "expected": list(want2), "category": sc.GetCategory()}))
                 q = ObtainQuantity(u, cat)
@@ -203,6 +279,13 @@ class Explorer:
     def history(self, acts, ids=None, check_all=True):
         ctx = self.ctx
         R = Run()
+        try:
+            return self._history(R, acts, ids, check_all)
+        finally:
+            R.close()
+
+    def _history(self, R, acts, ids, check_all):
+        ctx = self.ctx
         done = []
         for i, act in enumerate(acts):
             if not R.applicable(act):
@@ -253,6 +336,8 @@ def random_history(r, n):
             acts.append(("setdefault", r.choice(ids), c, u))
         elif k < 0.86:
             acts.append(("removecat", r.choice(ids), r.choice(["length", "time", "mass"])))
+        elif r.random() < 0.25:
+            acts.append(r.choice([("ghost-setdefault", r.choice(ids), "length", "km"), ("ghost-removecat", r.choice(ids), "time"), ("pushdb",), ("popdb",), ("readonly", r.choice(ids), True)]))
         else:
             acts.append(r.choice([("convert", "length", "m", 5.0), ("convert", "length", "cm", 7.0), ("convert", "time", "s", 3.0), ("convert", "mass", "kg", 2.0), ("convert", "time", "min", 0.5)]))
     return acts
@@ -267,6 +352,13 @@ def run_random(E, acts):
         keep.append(a)
     ctx = E.ctx
     R = Run()
+    try:
+        return _run_random(E, ctx, R, keep)
+    finally:
+        R.close()
+
+
+def _run_random(E, ctx, R, keep):
     done = []
     for act in keep:
         if not R.applicable(act):
